@@ -714,3 +714,7 @@ v("c05-settle-task-cancelled-in-try", "C05", "FUTURE-EXCEPTION-GUARD", E + "incr
   "                if future.cancelled():\n                    self._push(_TaskFailure(task, CancelledError()))\n                    return\n                error = future.exception()\n",
   "                try:\n                    error = future.exception()\n                except CancelledError as cancelled:\n                    self._push(_TaskFailure(task, cancelled))\n                    return\n",
   expect="silent")
+
+# -- unfix variant of 304bda6 --------------------------------------------------------------------------------
+v("c20-unfix-default-on-output-typed-field", "C20", "SCHEMA-VALIDATION-TOTAL", U + "validate_input_value.py",
+  "            elif is_input_type(field.type):\n", "            else:\n")
